@@ -276,13 +276,15 @@ func runTransfer(o *Out, r *rand.Rand, thorough bool, args []string) {
 	// it - accept on (recv=id+1, send=id), frame for the asker's version, write, close - and the asker's real reply processing
 	// takes the CONTENT message that announces that id
 	for vi, vs := range [][]uint8{{0, 1}, {0}} {
-		mn := newMemNet()
-		a := startNode(mn, r, nodeOpts{ip: net.IP{34, 1, 3, byte(1 + vi)}, port: 9320, versions: vs, utpLimit: 50})
-		b := startNode(mn, r, nodeOpts{ip: net.IP{34, 2, 4, byte(1 + vi)}, port: 9321, versions: vs, utpLimit: 50})
-		a.p.AddEnr(b.p.Self())
-		b.p.AddEnr(a.p.Self())
-		_, _ = a.p.VerifPing(b.p.Self())
-		for _, id := range []uint16{0, 1, 0xffff, uint16(2 + r.Intn(65000))} {
+		for ii, id := range []uint16{0, 1, 0xffff, uint16(2 + r.Intn(65000))} {
+			// a pair of nodes of its own for every id: neighbouring ids would meet the connection of the previous transfer while
+			// it lingers (the asker's id for stream n+1 is the server's id for stream n)
+			mn := newMemNet()
+			a := startNode(mn, r, nodeOpts{ip: net.IP{34, 1, byte(3 + ii), byte(1 + vi)}, port: 9320, versions: vs, utpLimit: 50})
+			b := startNode(mn, r, nodeOpts{ip: net.IP{34, 2, byte(4 + ii), byte(1 + vi)}, port: 9321, versions: vs, utpLimit: 50})
+			a.p.AddEnr(b.p.Self())
+			b.p.AddEnr(a.p.Self())
+			_, _ = a.p.VerifPing(b.p.Self())
 			val := genBytes(5000, int(id%251))
 			cid := b.p.Utp.RecvId(a.p.Self(), id)
 			srvDone := make(chan error, 1)
@@ -328,9 +330,9 @@ func runTransfer(o *Out, r *rand.Rand, thorough bool, args []string) {
 				out = "timeout"
 			}
 			o.Case(fmt.Sprintf("transfer size=%d va=%s vb=%s streamid=%d", len(val), csv(vs), csv(vs), id), out)
+			a.stop()
+			b.stop()
 		}
-		a.stop()
-		b.stop()
 	}
 	// the serving side knows the asker by an OLDER record that advertises other versions than the asker does now (it was
 	// upgraded or rolled back and re-published its record): framing follows the record of the live session, not the table's
